@@ -4,7 +4,7 @@
    (CPython's enum lookup, dict, frozenset; Amaranth's Shape.cast, In/Out, Member.array, Member.signature,
    exact_log2).  Nothing here mentions amaranth-soc: the library's own code is regenerated from its source.
    No proofs about the library here either; a few generic lemmas used by Gen/TieSig.v are at the end. *)
-From Coq Require Import ZArith List Bool String Lia Permutation.
+From Coq Require Import ZArith NArith List Bool String Lia Permutation.
 From Soc Require Import Lib.Bits Lib.Res.
 Import ListNotations.
 Open Scope Z_scope.
@@ -147,8 +147,8 @@ Fixpoint str_leb (a b : string) : bool :=
   | EmptyString, _ => true
   | String _ _, EmptyString => false
   | String x a', String y b' =>
-      let nx := Ascii.nat_of_ascii x in let ny := Ascii.nat_of_ascii y in
-      if Nat.ltb nx ny then true else if Nat.ltb ny nx then false else str_leb a' b'
+      let nx := Ascii.N_of_ascii x in let ny := Ascii.N_of_ascii y in
+      if N.ltb nx ny then true else if N.ltb ny nx then false else str_leb a' b'
   end.
 Fixpoint dins {V} (x : string * V) (l : pdict V) : pdict V :=
   match l with
